@@ -128,6 +128,44 @@ def enc_exts(es):
   return o
 
 
+NAME_TYPES = (2, 5, 12)
+
+
+def dns_bytes(L):
+  """RFC 1035 4.1 message; cmp = 1: a name identical to one already written in full becomes a pointer"""
+  lay = layouts()
+  h = dict(L)
+  h.update(qd=len(L["qs"]), an=len(L["ans"]), ns=len(L["auth"]), ar=len(L["add"]))
+  s = bytearray(enc_fixed(lay["dns"], h))
+  seen = []
+
+  def name_bytes(name):
+    if L["cmp"] == 1:
+      for nm, at in seen:
+        if nm == name:
+          return bytes([192 + at // 256, at % 256]), True
+    return b"".join(bytes([len(l)]) + bytes(l) for l in name) + b"\0", False
+
+  def put_name(name, shift=0):
+    enc, ptr = name_bytes(name)
+    if not ptr:
+      seen.append((name, len(s) + shift))
+    return enc
+
+  for q in L["qs"]:
+    s.extend(put_name(q["name"]))
+    s.extend(q["qtype"].to_bytes(2, "big") + q["qclass"].to_bytes(2, "big"))
+  for r in L["ans"] + L["auth"] + L["add"]:
+    s.extend(put_name(r["name"]))
+    s.extend(r["type"].to_bytes(2, "big") + r["class"].to_bytes(2, "big") + bytes(r["ttl"]))
+    if r["rd"]["k"] == "raw":
+      s.extend(len(r["rd"]["d"]).to_bytes(2, "big") + bytes(r["rd"]["d"]))
+    else:
+      enc = put_name(r["rd"]["d"], 2)
+      s.extend(len(enc).to_bytes(2, "big") + enc)
+  return bytes(s)
+
+
 def raw_bytes(L):
   return pattern(L["n"], L["a"], L["b"]) if L["p"] == "raw" else bytes(L["data"])
 
@@ -170,10 +208,12 @@ def hdr(L):
     return o
   if p == "rip":
     return enc_fixed(lay["rip"], L) + b"".join(enc_fixed(lay["ripentry"], e) for e in L["entries"])
+  if p == "dns":
+    return dns_bytes(L)
   if p == "dhcp":
     o = enc_fixed(lay["dhcp"], L)
     for x in L["opts"]:
-      o += bytes([x["k"], len(x["d"])]) + bytes(x["d"])
+      o += b"\0" if x["k"] == 0 else bytes([x["k"], len(x["d"])]) + bytes(x["d"])
     return o + b"\xff"
   if p in ("ns", "na", "rs", "ra"):
     o = enc_fixed(lay[p], L)
@@ -227,6 +267,8 @@ def fill(L, inner, prev):
     L["bodylen"] = len(inner)
   elif p == "eap":
     L["length"] = 4 + len(inner)
+  elif p == "dns":
+    L.update(qd=len(L["qs"]), an=len(L["ans"]), ns=len(L["auth"]), ar=len(L["add"]))
   return L
 
 
@@ -251,6 +293,31 @@ def assemble(stack):
 
 def encode(stack):
   return assemble(stack)[0]
+
+
+def pad_variants(stack):
+  """the serialisations the oracle accepts for one stack: they differ only in where DHCP pad options go
+  (none, or one after every option of odd size) and in whether repeated DNS names are compressed -
+  PadVariants in PktWireLayers.tla"""
+  out = [stack]
+  if any(L["p"] == "dns" for L in stack):
+    out.append([dict(L, cmp=1 - L["cmp"]) if L["p"] == "dns" else L for L in stack])
+  if any(L["p"] == "dhcp" for L in stack):
+    alt = []
+    for L in stack:
+      if L["p"] == "dhcp":
+        L = dict(L)
+        opts = []
+        for x in L["opts"]:
+          if x["k"] == 0:
+            continue
+          opts.append(x)
+          if len(x["d"]) % 2 == 1:
+            opts.append({"k": 0, "d": []})
+        L["opts"] = opts
+      alt.append(L)
+    out.append(alt)
+  return out
 
 
 def pay_len(stack):
